@@ -24,6 +24,9 @@ import (
 //	Q n low high maxsize           IterateEntries
 //	RRS n arg                      ReadRaftState(arg)
 //	GS n                           GetSnapshot
+//	BOOT n join type tag           SaveBootstrapInfo (join 0|1, state machine type 1..3, tag -> addresses)
+//	GB n                           GetBootstrapInfo
+//	LNI                            ListNodeInfo
 
 type ent struct {
 	Index, Term, Tag, Len uint64
@@ -84,8 +87,12 @@ func (o op) String() string {
 		return fmt.Sprintf("%s %d %d %d %d", o.Kind, o.N, o.Ss.Index, o.Ss.Term, o.Ss.Tag)
 	case "REMTO", "RRS":
 		return fmt.Sprintf("%s %d %d", o.Kind, o.N, o.A)
-	case "REMNODE", "GS":
+	case "REMNODE", "GS", "GB":
 		return fmt.Sprintf("%s %d", o.Kind, o.N)
+	case "BOOT":
+		return fmt.Sprintf("BOOT %d %d %d %d", o.N, o.A, o.B, o.C)
+	case "LNI":
+		return "LNI"
 	case "REOPEN":
 		return "REOPEN"
 	case "Q":
@@ -159,7 +166,19 @@ func parseOp(text string) op {
 			return bad
 		}
 		return op{Kind: f[0], N: n, A: v[1]}
-	case "REMNODE", "GS":
+	case "LNI":
+		return op{Kind: "LNI"}
+	case "BOOT":
+		v, ok := nums(f[1:])
+		if !ok || len(v) != 4 || v[1] > 1 || v[2] < 1 || v[2] > 3 {
+			return bad
+		}
+		n, ok := node(v[0])
+		if !ok {
+			return bad
+		}
+		return op{Kind: "BOOT", N: n, A: v[1], B: v[2], C: v[3]}
+	case "REMNODE", "GS", "GB":
 		v, ok := nums(f[1:])
 		if !ok || len(v) != 1 {
 			return bad
